@@ -195,6 +195,7 @@ func main() {
 	genShared()
 	genFlow()
 	genHpack()
+	genFrame()
 	facts["issues"] = issues
 	keys := make([]string, 0, len(facts))
 	for k := range facts {
